@@ -388,7 +388,10 @@ def I1(ctx):
             ctx.ok("I1", "Execution." + f, "%s before the next iteration" % reset.split("::")[-1], [site_str(prog, fk, hit[0])])
         else:
             ctx.bad("I1", "Execution." + f, "field `%s` is carried into the next iteration without %s" % (f, reset), site_str(prog, fk, b0), detail="no-reset")
-    ctx.floor("I1", n, 11, "11 fields of Execution")
+    # every field of the struct as it is now is judged (a configuration field that was only ever copied forward may be removed;
+    # the fields holding per-iteration state - 7 on the pinned tree - are the ones that must be there)
+    nfields = sum(len(v["fields"]) for v in prog.adts.get(EXEC, {"variants": []})["variants"])
+    ctx.floor("I1", n, max(7, min(11, nfields)), "every field of Execution (11 on the pinned tree, 7 of them per-iteration state)")
     # thread::Set::clear assigns every field of Set
     sk = "rt::thread::Set::clear"
     sfn = need_fn(ctx, "I1", sk)
